@@ -1,7 +1,14 @@
 import JetVerif.Props.C02
+import JetVerif.Props.C02P
 open JetVerif.Props.C02
+open JetVerif.Props.C02P
 #print axioms load_bounded
 #print axioms getTemplate_terminates
 #print axioms self_reference_is_error
 #print axioms lexer_total
 #print axioms JetVerif.Lex.lexRun_chain
+#print axioms parser_never_crashes
+#print axioms parseItems_never_crashes
+#print axioms syntax_error_names_a_source_line
+#print axioms buffer_discipline
+#print axioms expression_never_crashes
